@@ -209,6 +209,57 @@ pub fn gen_fixed_room_squeeze(r: &mut Rng) -> Inst {
     Inst { courses, parts, rooms: Some(rooms) }
 }
 
+/// Small enough for the brute-force optimum: a fixed course nobody prefers whose EMPTY room size
+/// fits the room at which two popular courses collide while its size at num_min does not. Without
+/// rooms the fixed course's minimum must be filled at a cost; a room stage that cancelled it would
+/// score above the optimum without room limits (C17, second relation; C01).
+pub fn gen_fixed_unpopular_conflict_small(r: &mut Rng) -> Inst {
+    let fa = 3 + r.usize(2);
+    let fb = 3 + r.usize(2);
+    let fmin = 2 + r.usize(2);
+    let lo = fa.min(fb);
+    let foff = 1 + r.usize(lo - 1); // 1 ..= lo-1
+    // foff <= R < foff + fmin and R < lo (so that the second popular course collides with R)
+    let hi = (foff + fmin).min(lo);
+    let room = foff + r.usize(hi - foff);
+    let mk = |i: usize, name: &str, mn: usize, mx: usize, off: f32, fixed: bool| CourseDump { index: i, dbid: 100 + i, name: name.into(), num_min: mn, num_max: mx,
+        instructors: vec![], room_factor: 1.0, room_offset: off, fixed_course: fixed, hidden_participant_names: vec![] };
+    let courses = vec![mk(0, "A", r.usize(2), fa + 1, 0.0, false), mk(1, "B", r.usize(2), fb + 1, 0.0, false), mk(2, "F", fmin, fmin + 1, foff as f32, true)];
+    let mut parts = vec![];
+    for (c, n) in [(0usize, fa), (1usize, fb)] {
+        for _ in 0..n {
+            let i = parts.len();
+            parts.push(ParticipantDump { index: i, dbid: 1000 + i, name: format!("p{}", i), choices: vec![(c, 0), (1 - c, 1), (2, 2)] });
+        }
+    }
+    let big = (fa.max(fb) + 1).max(fmin + foff + 1);
+    let rooms = vec![big, room, if r.chance(1, 2) { room } else { foff }];
+    Inst { courses, parts, rooms: Some(rooms) }
+}
+
+/// The same situation beyond the brute-force range (the reference optimum is then the Lean model's
+/// complete search without rooms): two popular courses colliding at a room R, a third small course,
+/// and a fixed course with a large offset that is everybody's last choice, offset <= R < offset + min.
+pub fn gen_fixed_unpopular_conflict_medium(r: &mut Rng) -> Inst {
+    let a = 7 + r.usize(3); // 7..9
+    let fmin = 3;
+    let foff = 5usize;
+    let room = a - 2; // 5..7: foff <= room < foff + fmin
+    let mk = |i: usize, name: &str, mn: usize, mx: usize, off: f32, fixed: bool| CourseDump { index: i, dbid: 100 + i, name: name.into(), num_min: mn, num_max: mx,
+        instructors: vec![], room_factor: 1.0, room_offset: off, fixed_course: fixed, hidden_participant_names: vec![] };
+    let courses = vec![mk(0, "A", 1, a, 0.0, false), mk(1, "B", 1, a, 0.0, false), mk(2, "C", r.usize(2), 4, 0.0, false), mk(3, "F", fmin, fmin + 2, foff as f32, true)];
+    let mut parts = vec![];
+    for (c, n) in [(0usize, a - 1), (1usize, a - 1), (2usize, 2usize)] {
+        for _ in 0..n {
+            let i = parts.len();
+            let second = if c == 2 { r.usize(2) } else if r.chance(1, 2) { 1 - c } else { 2 };
+            parts.push(ParticipantDump { index: i, dbid: 1000 + i, name: format!("p{}", i), choices: vec![(c, 0), (second, 1), (3, 2)] });
+        }
+    }
+    let rooms = vec![a + 2 + r.usize(2), room, room, 4];
+    Inst { courses, parts, rooms: Some(rooms) }
+}
+
 /// A fixed course that stays empty, with a FRACTIONAL room offset (as the CdE reader produces for
 /// pre-assigned people: 3 x 1.5 = 4.5), and a room of exactly floor(offset) places at its rank: the
 /// empty fixed course needs ceil(offset) places.
